@@ -16,6 +16,7 @@ package ggql
 
 import (
 	"io"
+	"strings"
 )
 
 // InputField in a representation of a field in an input object.
@@ -76,6 +77,14 @@ func (f *InputField) Resolve(field *Field, args map[string]interface{}) (result 
 		result = f.Type
 	case defaultValueStr:
 		result = f.Default
+		switch result.(type) {
+		case []interface{}, map[string]interface{}:
+			// A list or an object can only be given as it is written in SDL.
+			var b strings.Builder
+			if err = WriteSDLValue(&b, result); err == nil {
+				result = b.String()
+			}
+		}
 	}
 	return
 }
